@@ -9,9 +9,9 @@ trap 'rm -rf "$S"' EXIT
 export GOFLAGS=-mod=mod GOPROXY=off GOSUMDB=off GOTOOLCHAIN=local
 rsync -a --exclude .git /repo/ "$S/repo/"
 cp "$D/demo${K}_test.go" "$S/repo/$PKG/zz_demo${K}_test.go"
-( cd "$S/repo" && go test -count=1 -run "$TEST" "./$PKG/" >"$S/un.log" 2>&1 ); un=$?
+( cd "$S/repo" && go test ${SEED_GOTEST_FLAGS:-} -count=1 -run "$TEST" "./$PKG/" >"$S/un.log" 2>&1 ); un=$?
 ( cd "$S/repo" && git apply --whitespace=nowarn "$D/patch${K}.diff" ) || { echo "PATCH-DOES-NOT-APPLY"; exit 2; }
-( cd "$S/repo" && go test -count=1 -run "$TEST" "./$PKG/" >"$S/pa.log" 2>&1 ); pa=$?
+( cd "$S/repo" && go test ${SEED_GOTEST_FLAGS:-} -count=1 -run "$TEST" "./$PKG/" >"$S/pa.log" 2>&1 ); pa=$?
 rm "$S/repo/$PKG/zz_demo${K}_test.go"
 ( cd "$S/repo" && go build ./... && go test -count=1 ./... >"$S/suite.log" 2>&1 ); su=$?
 echo "demo unpatched rc=$un (want 0) | demo patched rc=$pa (want !=0) | suite with patch rc=$su (want 0)"
